@@ -32,7 +32,7 @@ var parentSetup = []string{
 }
 
 func newFixture(fail func(string, ...any), setup []string) (*fx.Fixture, *fx.Sess) {
-	f := fx.New(fx.Opts{})
+	f := fx.New(fx.Opts{Root: true})
 	s := f.NewSession("", "", "")
 	s.MustExec(fail, setup...)
 	return f, s
